@@ -87,6 +87,10 @@ def gen_cases(ck):
     rng = ck.rng
     n = 12 if ck.thorough else 1
     cases = []
+    # 0. corpus: the witness of Refuted_C09.v (an empty column between numeric ones) through src_problem
+    t0 = {"delim": 44, "ncols": 4, "nrows": 2, "out": 0, "out_kind": "num", "kinds": ["num", "num", "void", "num"],
+          "cells": [["1", "2", "", "4"], ["5", "6", "", "8"]], "header": None}
+    cases.append({"mode": "prob", "table": t0, "line": "prob fixed %s 0" % cc.hx("1,2,,4\n5,6,,8\n")})
     # 1. general tables, explicit settings, every delimiter / output index / quoting
     for _ in range(500 * n):
         t = cc.gen_table(rng)
@@ -200,6 +204,7 @@ def evaluate(ck, cases, hout, crashes, mout):
 def run(ck):
     res = vv.prove("Properties_C09", set())
     ck.add_proof(res)
+    ck.add_proof(vv.prove("Refuted_C09", set()))
     ck.trusted += ["extraction: ExtrOcamlBasic only; ocaml/csv_driver.ml + zutil.ml (realises the strtod/stod/stoi oracles "
                    "with the C library through float_of_string)",
                    "harness/h_csv.cc canonical printing; g++ 12 ASan/UBSan",
